@@ -189,6 +189,28 @@ def coerce(v: Val, s: Sort) -> Val:
             return v
         if isinstance(v, VOpt) and isinstance(v.sort.inner, TRefS):
             return VRef(z3.If(v.sort.is_none(v.t), 0, v.sort.the(v.t)), s.cls)
+    if isinstance(s, TKDict) and isinstance(v, VConcDict):
+        have = {}
+        other = False
+        for k, x in v.items:
+            kc = k.conc() if isinstance(k, VStr) else None
+            if kc is None:
+                raise Unsupported("dict with a symbolic key coerced to a keyed dict")
+            if kc in s.keys:
+                have[kc] = x
+            else:
+                other = True
+        ts = []
+        for f, fs in s.fields:
+            if f.startswith("p_"):
+                ts.append(z3.BoolVal(f[2:] in have))
+            elif f.startswith("v_"):
+                ts.append(term_of(have[f[2:]], fs) if f[2:] in have else default_term(fs))
+            elif f == "other":
+                ts.append(z3.BoolVal(other))
+            else:
+                ts.append(z3.StringVal("__other__"))
+        return VRec(s.mk(*ts), s)
     if isinstance(s, TAbs) and s.nm == "Any":
         return VAbs(z3.FreshConst(s.z3(), "any"), s)
     if isinstance(s, TUnionRec):
